@@ -37,18 +37,20 @@ for i in sorted(d for d in os.listdir(os.path.join(HERE, "seeded")) if os.path.i
     cb, conf = m.get("caught_by") or {}, m.get("confirmed") or {}
     if not cb:
         continue
-    allrows.append((i, m["property"], cb.get("caught"), cb.get("harness_error"), [tuple(x) for x in cb.get("sub_checks_and_signatures", [])], conf, cb.get("tier")))
+    allrows.append((i, m["property"], cb.get("caught"), cb.get("harness_error"), [tuple(x) for x in cb.get("sub_checks_and_signatures", [])], conf, cb.get("tier"), m.get("neutralised")))
 with open(os.path.join(HERE, "seeded", "REPORT.md"), "w") as f:
     f.write("# Seeded property-breaking changes vs. the checks\n\n")
     f.write("Each change was written by an independent sub-agent that saw only the property text and a scratch worktree (ids `-mN`: first wave,\n"
             "`-w2mN`: second wave, told which mechanisms had been used before); each passes the 463-test baseline and has a demo that exits 1 with\n"
             "the change and 0 without (columns 'baseline' / 'demo').  Outcomes are recorded by tools/seeded_report.py in each meta.json.\n\n")
     n_c = sum(1 for r in allrows if r[2])
-    f.write("%d changes recorded, %d caught by the %s tier of their property's check.\n\n" % (len(allrows), n_c, "quick"))
+    n_n = sum(1 for r in allrows if r[7] and not r[2])
+    f.write("%d changes recorded, %d caught by the %s tier of their property's check, %d no longer property-breaking on the current /repo "
+            "(neutralised by a later fix: their own demo passes with the change).\n\n" % (len(allrows), n_c, "quick", n_n))
     f.write("| id | property | /repo | baseline | demo with/without | verdict | caught by (sub-check: signature) |\n|---|---|---|---|---|---|---|\n")
-    for i, p, caught, harness, subs, conf, t in allrows:
+    for i, p, caught, harness, subs, conf, t, neut in allrows:
         f.write("| %s | %s | %s | %s | %s/%s | %s | %s |\n" % (
             i, p, conf.get("repo_head"), conf.get("baseline_with_change"), conf.get("demo_exit_with_change"), conf.get("demo_exit_without_change"),
-            "caught" if caught else ("harness error" if harness else "MISSED"),
+            "caught" if caught else ("neutralised by a later fix" if neut else ("harness error" if harness else "MISSED")),
             "; ".join("%s: %s" % s for s in subs[:6])))
 print("wrote seeded/REPORT.md")
